@@ -11,15 +11,29 @@ inductive Ev
 deriving Repr
 
 /-- user-chosen identifiers stay out of the ranges the library uses internally (task 0 is
-`events_local`, raw event 0 is `events_kick`, descriptors ≥ 1000 are the ones embedded in raw events);
+`events_local`, raw event 0 is `events_kick`, descriptors ≥ 1000 are the ones embedded in raw events; user
+descriptor ids are < 64 and raw event ids < 16, the ranges `universeOf` enumerates);
+events and raw events are registered at most once and only unregistered when registered;
 timer structs exist and carry a normalised, non-negative expiry -/
 def apiOk (s : St) : Api → Bool
-  | .fdRegister f .. | .fdRegisterTry f .. | .fdUnregister f | .fdSetIn f _ | .fdSetOut f _ | .fdSetErr f _ => decide (f < 1000)
+  | .fdRegister f .. | .fdRegisterTry f .. | .fdUnregister f | .fdSetIn f _ | .fdSetOut f _ | .fdSetErr f _ => decide (f < 64)
   | .timerRegister t e => decide (t < s.heap.idx.size) && decide (0 ≤ e.sec) && decide (0 ≤ e.nsec) && decide (e.nsec < 1000000000)
   | .timerUnregister t => decide (t < s.heap.idx.size)
   | .taskRegister k | .taskUnregister k | .taskInit k => decide (1 ≤ k)
-  | .rawRegister r _ | .rawUnregister r => decide (1 ≤ r) && decide (r < 1000)
+  | .rawRegister r _ => decide (1 ≤ r) && decide (r < 16) && !(s.raws r).registered
+  | .rawUnregister r => decide (1 ≤ r) && decide (r < 16) && (s.raws r).registered
+  | .evRegister e _ => !(s.evs e).registered
+  | .evUnregister e => (s.evs e).registered  -- unregistering an unregistered event is invalid use
   | .evPost e => (s.evs e).registered        -- posting to an unregistered event is invalid use
+  | _ => true
+
+/-- the user only passes objects whose memory it has not freed -/
+def apiLive (s : St) : Api → Bool
+  | .fdRegister f .. | .fdRegisterTry f .. | .fdUnregister f | .fdSetIn f _ | .fdSetOut f _ | .fdSetErr f _ => (s.fds f).live
+  | .timerRegister t _ | .timerUnregister t => s.tlive t
+  | .taskRegister k | .taskUnregister k | .taskInit k => (s.tobjs k).live
+  | .evRegister e _ | .evUnregister e | .evPost e => (s.evs e).live
+  | .rawRegister r _ | .rawUnregister r => (s.raws r).live
   | _ => true
 
 /-- kernel contract K1 on a wait result: only entries of the current interest set are reported
@@ -51,10 +65,10 @@ def unregisteredObj (s : St) (kind id : Nat) : Bool :=
 contract on wait results, a normalised monotone clock, posts only to registered events, and freeing /
 re-initialising only objects that are not registered -/
 def envOk (s : St) : Input → Bool
-  | .api a => apiOk s a
+  | .api a => apiOk s a && apiLive s a
   | .wret r => wretOk s r
   | .time t => decide (0 ≤ t.sec) && decide (0 ≤ t.nsec) && decide (t.nsec < 1000000000) && !(s.time.gt t)
-  | .xpost e => (s.evs e).registered
+  | .xpost e => (s.evs e).registered && (s.evs e).live
   | .free kind id => unregisteredObj s kind id
   | .init kind id => unregisteredObj s kind id
   | _ => true
